@@ -7,14 +7,21 @@ def spec(tier, seed):
     jobs, gen_i = [], ""
     sizes = g.idct_sizes() if tier == "thorough" else [(5, 3), (17, 9), (16, 16)]
     for (w, h) in sizes:
-        gen_i += g.idct_inst("dc", w, h)
-        jobs.append(Job("h263", g.idct_name("dc", w, h), 2400, tagged=True, group="inverse transform: zero / DC-only blocks", params={"plane": "%dx%d" % (w, h)},
-                        allow_uncovered=("last sample of a cropped block",)))
+        for bi in g.idct_dc_blocks(w, h):
+            gen_i += g.idct_inst("dc", w, h, bi)
+            jobs.append(Job("h263", g.idct_name("dc", w, h, bi), 2400, tagged=True, group="inverse transform: zero / DC-only blocks", params={"plane": "%dx%d" % (w, h), "dc_block": bi},
+                            allow_uncovered=("last sample of a cropped block", "rounding boundary (x.5)", "most negative coefficient")))
     jobs.append(Job("h263", "c02_basis_table", 300, tagged=True, group="basis constants"))
     jobs.append(Job("h263", "c02_idct_1d_one_hot", 1200, tagged=True, group="1-D transform wiring"))
+    for (w, h) in sizes:
+        gen_i += g.idct_inst("contract", w, h)
+        jobs.append(Job("h263", g.idct_name("contract", w, h), 1200, group="inverse transform: every sparsity variant stays inside the plane", params={"plane": "%dx%d" % (w, h)}))
     c11spec = c11.spec(tier, seed)
     jobs += [j for j in c11spec["jobs"] if j.expect == "pass"]
-    return {"jobs": jobs, "generated": {"h263/src/decoder/cpu/idct.rs": gen_i},
+    generated = {"h263/src/decoder/cpu/idct.rs": gen_i}
+    for k, v in c11spec["generated"].items():
+        generated[k] = generated.get(k, "") + v
+    return {"jobs": jobs, "generated": generated,
             "functions": ["h263-rs::decoder::cpu::idct::{idct_channel (Zero and Dc variants, cropping, clip, add), idct_1d, BASIS_TABLE}"] + c11.FUNCS,
             "stubs": [],
             "rule": "stage-wise (DESIGN.md 3/C02-C03): (1) dequantisation / zig-zag / INTRADC = all C11 obligations; (2) blocks that are empty or DC-only reconstruct exactly: sample = clip(prediction + clip(round(DC/8), -256..255), 0..255) for every DC value -2048..2047, every prediction, at a symbolic sample of planes with cropped blocks; "
